@@ -12,7 +12,7 @@ LEVEL = 'exploration'
 RULE = ("Streams of exact numbers (ints, rationals, floats lifted exactly) of length 0..60 (thorough ..400) are pushed "
         "through the shipped WelfordTracker.update / ExponentialSmoothingTracker.update as ixv.exact.Q values, so "
         "mean/var/get() are exact rationals and are compared with == against closed forms (arithmetic mean, population "
-        "variance, sum alpha(1-alpha)^(n-i) v_i) after EVERY update; plus N, std, linearity T(a*u+b*w)=a*T(u)+b*T(w), "
+        "variance, sum alpha(1-alpha)^(n-i) v_i) after EVERY update (in some cases the tracker is deep- or shallow-copied mid-stream: the copy carries on, the original must stay); plus N, std, linearity T(a*u+b*w)=a*T(u)+b*T(w), "
         "min<=mean<=max, smoothed value in the convex hull of {0} and the inputs; a float/NumPy-scalar twin is compared "
         "within a rounding tolerance. Non-trivial: >=3 distinct values, non-monotone, mixed sign (and alpha not in {0,1} "
         "for smoothing); distinct by SHA-256 of the canonical case JSON.")
@@ -45,7 +45,22 @@ def run_welford(case):
     if not (t.N == 0 and t.mean == 0 and t.var == 0 and t.get() == 0 and t.std == 0):
         return Result(False, key='C10:welford:empty', detail='empty tracker does not report N=0, mean=0, var=0')
     seen = []
+    copy_at = case.get('copy_at')
     for i, v in enumerate(vals):
+        if copy_at is not None and i == copy_at % (len(vals) + 1) and i > 0:
+            # the tracker is copied mid-stream (the explainers deep-copy trackers; MultiValueTracker copies its base tracker): the copy
+            # carries on and must report the statistics of ALL values, the original must stay as it was
+            import copy as _copy
+            frozen = (t.N, t.mean, t.var)
+            old = t
+            t = _copy.deepcopy(old) if case.get('copy_kind', 'deep') == 'deep' else _copy.copy(old)
+            if (t.N, t.mean, t.var) != frozen:
+                return Result(False, key='C10:welford:copy', detail=f'a {case.get("copy_kind", "deep")} copy after {i} updates reports N/mean/var {(t.N, t.mean, t.var)!r}, the original {frozen!r}')
+            t.update(v)
+            if (old.N, old.mean, old.var) != frozen:
+                return Result(False, key='C10:welford:copy-aliases', detail='updating a copy changed the original tracker')
+            seen.append(v)
+            continue
         r = t.update(v)
         seen.append(v)
         if r is not t:
@@ -85,7 +100,20 @@ def run_es(case):
     if not (t.N == 0 and t.get() == 0):
         return Result(False, key='C10:es:empty', detail='fresh smoothing tracker is not 0')
     seen = []
+    copy_at = case.get('copy_at')
     for i, v in enumerate(vals):
+        if copy_at is not None and i == copy_at % (len(vals) + 1) and i > 0:
+            import copy as _copy
+            frozen = (t.N, t.get())
+            old = t
+            t = _copy.deepcopy(old) if case.get('copy_kind', 'deep') == 'deep' else _copy.copy(old)
+            if (t.N, t.get()) != frozen:
+                return Result(False, key='C10:es:copy', detail='a copy of a warm smoothing tracker reports other values than the original')
+            t.update(v)
+            if (old.N, old.get()) != frozen:
+                return Result(False, key='C10:es:copy-aliases', detail='updating a copy changed the original tracker')
+            seen.append(v)
+            continue
         t.update(v)
         seen.append(v)
         if t.N != len(seen):
@@ -169,8 +197,10 @@ def _stream(maxlen):
 def strategies(ctx):
     L = 400 if ctx.thorough() else 60
     reads = st.lists(st.integers(0, 3), min_size=1, max_size=6)
-    s_w = st.fixed_dictionaries({'values': _stream(L), 'reads': reads})
-    s_e = st.fixed_dictionaries({'values': _stream(L), 'alpha': gen.alpha01(), 'reads': reads})
+    cp = st.one_of(st.none(), st.integers(1, 30))
+    ck = st.sampled_from(['deep', 'deep', 'shallow'])
+    s_w = st.fixed_dictionaries({'values': _stream(L), 'reads': reads, 'copy_at': cp, 'copy_kind': ck})
+    s_e = st.fixed_dictionaries({'values': _stream(L), 'alpha': gen.alpha01(), 'reads': reads, 'copy_at': cp, 'copy_kind': ck})
     s_l = st.fixed_dictionaries({'u': st.lists(gen.rational(), min_size=1, max_size=20),
                                  'w': st.lists(gen.rational(), min_size=1, max_size=20),
                                  'a': gen.rational(), 'b': gen.rational(), 'alpha': gen.alpha01()})
